@@ -4,10 +4,10 @@ package c04
 import (
 	"bytes"
 	"context"
-	"os"
 	"encoding/base64"
 	"encoding/hex"
 	"fmt"
+	"os"
 	"strings"
 
 	trcommon "github.com/cossacklabs/acra/cmd/acra-translator/common"
@@ -248,6 +248,9 @@ func compareReplies(acra, ref []proxyrig.BackendMsg, resultCols []string, skip f
 }
 
 // Run is the C04 monitor (PostgreSQL rig).
+// MySQLLayer, when set (props/all), runs this property's layer over the MySQL proxy rig.
+var MySQLLayer func(r *ev.Run)
+
 func Run(r *ev.Run) {
 	r.Rule = "sessions of 5-40 generated statements (INSERT column-list/schema-order/multi-row/RETURNING, UPDATE, DELETE, SELECT star/list/alias/qualified; simple and extended protocol incl. Describe-statement flow, named statements/portals, row limits; text/binary/mixed parameter and result formats) over generated table configurations (plain/searchable/masked/tokenized/typed/per-column-client columns, both envelopes) sent through a real in-process AcraServer to a fake PostgreSQL and, identically, straight to a reference fake PostgreSQL holding the application-view schema; distinct = (column kind+envelope+data type, statement kind, protocol, parameter format, result format, oracle) tuples for which an oracle evaluated a non-trivial value"
 	r.Assumptions = []string{
@@ -275,6 +278,10 @@ func Run(r *ev.Run) {
 	r.RequireAtLeast("db_stream_marker_checks", 100)
 	r.RequireAtLeast("nonowner_reads_checked", 20)
 	r.RequireAtLeast("app_encrypted_writes", 5)
+	if MySQLLayer != nil {
+		// the MySQL part: same oracles over the MySQL rig (switches the process-wide SQL dialect, so it runs after the PostgreSQL part)
+		MySQLLayer(r)
+	}
 }
 
 func colClass(c proxyrig.ColSpec) string {
